@@ -48,6 +48,7 @@ def run(rep, tier):
             args(rep, c, sfx, track)
         polarity(rep, c, sfx)
         reported(rep, c, sfx)
+        childcount(rep, c, sfx)
     backends(rep)
 
 
@@ -593,6 +594,45 @@ def reported(rep, c, sfx):
                 r.violation("write:%s:%s" % (g["path"].replace("pest::", ""), fld), where(x),
                             "%s writes Error.%s after construction (%s)" % (g["path"], fld, how))
     r.instance("writers-outside-ctor", "", "%d found" % n)
+
+
+def childcount(rep, c, sfx):
+    r = rep.rule("C08.CHILDCOUNT" + sfx, 1,
+                 "the number of attempts made inside a rule - which decides whether the failing rule is reported in place "
+                 "of them - counts expected and unexpected attempts alike: a function of ParserState that returns a count "
+                 "of recorded attempts reads the length of both lists")
+    n = 0
+    for b in c.bodies:
+        if b.get("impl_self") != PS or b.get("output") != "usize" or b.get("body") is None or b.get("exp"):
+            continue
+        read = set()
+        for x in walk(b["body"]):
+            if kind(x) == "MethodCall" and x["m"] == "len" and vec_field_of(x["recv"]):
+                read.add(vec_field_of(x["recv"]))
+        if not read:
+            continue
+        n += 1
+        key = b["name"]
+        r.instance(key, where(b["body"]), str(sorted(read)))
+        if read != {"pos_attempts", "neg_attempts"}:
+            r.violation(key, where(b["body"]),
+                        "%s counts only %s: a rule that matched under `!` inside a failing rule is not counted as tried, so "
+                        "the parent is reported where the child should be (or the other way round)" % (key, sorted(read)))
+    if n == 0:
+        # the count may be computed inline in rule()/track(): then both lengths must be read there
+        for name in ("rule", "track"):
+            fn = c.fn(PS + "::" + name)
+            if fn is None:
+                continue
+            read = set(vec_field_of(x["recv"]) for x in walk(fn["body"])
+                       if kind(x) == "MethodCall" and x["m"] == "len" and vec_field_of(x["recv"]))
+            if read:
+                n += 1
+                r.instance(name, where(fn["body"]), str(sorted(read)))
+                if read != {"pos_attempts", "neg_attempts"}:
+                    r.violation(name, where(fn["body"]), "%s counts only %s" % (name, sorted(read)))
+    if n == 0:
+        r.lost("the count of recorded attempts (lengths of pos_attempts / neg_attempts)")
 
 
 def backends(rep):
